@@ -27,22 +27,39 @@ class TaskFail(ValueError):
     pass
 
 
-def task(logdir, call_no, i, fails, delay):
+class BaseFail(BaseException):
+    """a failure that is not an Exception (like SystemExit / KeyboardInterrupt)"""
+
+
+FLAG = {}
+
+
+def init_worker(k):
+    FLAG["k"] = k
+
+
+def task(logdir, call_no, i, fails, delay, exc="TaskFail"):
     fd = os.open(os.path.join(logdir, "exec.log"), os.O_WRONLY | os.O_APPEND | os.O_CREAT)
     os.write(fd, ("%d %d %d\n" % (call_no, i, os.getpid())).encode())
     os.close(fd)
     if delay:
         time.sleep(delay)
     if fails:
+        if exc == "SystemExit":
+            raise SystemExit("task failed", i)
+        if exc == "KeyboardInterrupt":
+            raise KeyboardInterrupt("task failed", i)
+        if exc == "BaseFail":
+            raise BaseFail("task failed", i)
         raise TaskFail("task failed", i)
-    return (call_no, i)
+    return (call_no, i, FLAG.get("k"))
 
 
-def gen_input(logdir, call_no, N, tfail, ifail, rng):
+def gen_input(logdir, call_no, N, tfail, ifail, rng, exc="TaskFail"):
     for i in range(N):
         if ifail is not None and i == ifail:
             raise KeyError("input failed", i)
-        yield delayed(task)(logdir, call_no, i, i in tfail, rng.choice([0, 0, 0.001, 0.003]))
+        yield delayed(task)(logdir, call_no, i, i in tfail, rng.choice([0, 0, 0.001, 0.003]), exc)
     if ifail is not None and ifail >= N:
         raise KeyError("input failed", N)
 
@@ -50,7 +67,7 @@ def gen_input(logdir, call_no, N, tfail, ifail, rng):
 def one_call(p, c, logdir, call_no, rng, tfail, ifail):
     out = {"values": None, "raised": None}
     try:
-        r = p(gen_input(logdir, call_no, c["N"], tfail, ifail, rng))
+        r = p(gen_input(logdir, call_no, c["N"], tfail, ifail, rng, c.get("exc", "TaskFail")))
         out["values"] = [list(v) for v in r]
     except BaseException as e:  # noqa
         out["raised"] = [type(e).__name__, [a if isinstance(a, (int, str)) else repr(a) for a in e.args]]
@@ -62,6 +79,11 @@ def run(c):
     logdir = tempfile.mkdtemp(prefix="verif-m1real-")
     kw = dict(n_jobs=c["n_jobs"], batch_size=c["batch_size"], pre_dispatch=c["pre_dispatch"],
               return_as=c["return_as"], verbose=c.get("verbose", 0))
+    if c.get("init") is not None:
+        # backend options given to Parallel (here the pool initializer) must hold for every call, also for the pool
+        # that is re-created after a failed call inside a with block
+        kw["initializer"] = init_worker
+        kw["initargs"] = (c["init"],)
     if c["backend"] != "default":
         kw["backend"] = c["backend"] if c["backend"] != "sequential" else "sequential"
     p = Parallel(**kw)
@@ -73,11 +95,18 @@ def run(c):
             tf = set(c.get("tfail", [])) if k == 0 else set()
             jf = c.get("ifail") if k == 0 else None
             calls.append(one_call(p, c, logdir, k + 1, rng, tf, jf))
-    if c.get("with_block"):
-        with p:
+    def whole():
+        if c.get("with_block"):
+            with p:
+                body()
+        else:
             body()
-    else:
-        body()
+    # the call must terminate: run it under a watchdog (generous: the tasks take milliseconds)
+    import threading
+    th = threading.Thread(target=whole, daemon=True)
+    th.start()
+    th.join(c.get("watchdog", 60))
+    hang = th.is_alive()
     execs = {}
     try:
         for line in open(os.path.join(logdir, "exec.log")):
@@ -87,7 +116,7 @@ def run(c):
         pass
     import shutil
     shutil.rmtree(logdir, ignore_errors=True)
-    return {"calls": calls, "execs": execs}
+    return {"calls": list(calls), "execs": execs, "hang": hang}
 
 
 for line in sys.stdin:
@@ -101,4 +130,7 @@ for line in sys.stdin:
         import traceback
         r = {"harness_error": repr(e), "tb": traceback.format_exc()}
     OUT.write(json.dumps(r) + "\n")
+    if r.get("hang"):
+        OUT.flush()
+        os._exit(0)      # the stuck call cannot be recovered; the harness restarts after this case
     OUT.flush()
